@@ -819,8 +819,10 @@ func (sp *StreamParser) ExecCmd(cb RdbObjExecutor) {
 					args = append(args, fields[j], lp.Next())
 				}
 			} else {
-				numFields = lp.NextInteger()
-				for j := int64(0); j < numFields; j++ {
+				// the entry carries its own fields; the master entry's numFields stays valid
+				// for the following SAMEFIELDS entries
+				entryFields := lp.NextInteger()
+				for j := int64(0); j < entryFields; j++ {
 					args = append(args, lp.Next(), lp.Next())
 				}
 			}
